@@ -328,9 +328,17 @@ def oracle_c04(rec, problems, tol=Fraction(1, 10**9)):
     """Per step: one unit per idle column, none for busy ones, only where weight is non-zero."""
     n = rec.n
     idle_count = [0] * n
+    inflight = []         # jobs issued in this process and not yet completed: THEY define which columns are busy
     for idx, op in enumerate(rec.ops):
         if op["kind"] != "treat":
+            inflight.append(op["job"])
             continue
+        res0 = op["res"]
+        for k, jb in enumerate(inflight):
+            if jb["pin"] == res0["pin"] and list(jb["ens"]) == [e - rec.off for e in res0["ens"]]:
+                inflight.pop(k)
+                break
+        held = {e + rec.off for jb in inflight for e in jb["ens"]}
         before, after, ps = op["before"], op["after"], op["pre_sort"]
         if ps is None:
             problems.append(f"op {idx}: treat_output did not reach sort_trajstate")
@@ -346,11 +354,14 @@ def oracle_c04(rec, problems, tol=Fraction(1, 10**9)):
         tot_a = fsum(after["frac"].values(), n)
         arch = fsum([before["frac"][pn] for pn in archived if pn in before["frac"]], n)
         for c in range(n):
-            want = 0 if ps["locks"][c] else 1
+            # busy = held by an in-flight job (the last column is the ghost); the program's own busy flags must say the same
+            busy = c in held or c == n - 1
+            want = 0 if busy else 1
             idle_count[c] += want
             got = tot_a[c] + arch[c] - tot_b[c]
             if abs(got - want) > tol:
-                problems.append(f"op {idx}: column {c} ({'busy' if ps['locks'][c] else 'idle'}) received {float(got)} weight in this step, expected {want}")
+                why = "" if bool(ps["locks"][c]) == busy else f" (the program has it marked {'busy' if ps['locks'][c] else 'idle'}; in-flight jobs hold columns {sorted(held)})"
+                problems.append(f"op {idx}: column {c} ({'busy' if busy else 'idle'}) received {float(got)} weight in this step, expected {want}{why}")
         # distributed over idle live paths only where the weight is non-zero
         for slot, pn in enumerate(ps["live"][:-1]):
             if pn is None:
